@@ -68,6 +68,7 @@ type Options struct {
 	InvalidPodFaults bool          // the fault plan may answer Pod creates with 422 Invalid (a legitimate source of admission errors)
 	StoreYield       bool          // make the active-job store's compare-and-add a scheduling point
 	DeepLag          bool          // in lag mode the starved cache falls behind by many syncs, not just a few steps
+	Relist           bool          // a cache that is two or more events behind may lose its watch and relist (tombstones, skipped versions)
 	LagKinds         []Kind        // in lag mode: starve exactly these caches (default: one or two chosen at random)
 	TraceCap         int
 }
@@ -572,6 +573,13 @@ func (w *World) enabled() []action {
 			}
 		}
 	}
+	if w.Opt.Relist && w.Opt.Mode != "seq" {
+		for _, inf := range inc.Ctx.Inf.All() {
+			if inf.Behind(w.API) >= 2 {
+				acts = append(acts, action{kind: "relist", weight: 1, inf: inf})
+			}
+		}
+	}
 	for _, inf := range inc.Ctx.Inf.All() {
 		for _, l := range inf.PendingListeners() {
 			acts = append(acts, action{kind: "notify", weight: 8, inf: inf, lis: l})
@@ -667,6 +675,10 @@ func (w *World) perform(a action) {
 		seq := a.inf.NextSeq(w.API)
 		w.trace("deliver %s #%d", a.inf.Kind, seq)
 		a.inf.DeliverOne(w.API)
+	case "relist":
+		ch, tomb := a.inf.Relist(w.API)
+		w.Stat["relist_tombstones"] += tomb
+		w.trace("relist %s: %d adds/updates, %d tombstones", a.inf.Kind, ch, tomb)
 	case "notify":
 		w.trace("notify %s listener %d", a.inf.Kind, a.lis)
 		a.inf.Notify(a.lis)
